@@ -72,12 +72,48 @@ def _worker(args):
         return r
 
 
+def _corpus_worker(args):
+    modname, replay_fn, bindir, path = args
+    try:
+        rp = json.load(open(path))
+        mod = __import__(modname)
+        return (path, getattr(mod, replay_fn)(bindir, rp), None)
+    except Infra as e:
+        return (path, [], str(e))
+    except Exception:
+        return (path, [], "exception replaying %s:\n%s" % (path, traceback.format_exc()))
+
+
+def run_corpus(pid, modname, replay_fn, bindir, jobs, known_classes):
+    """Replays every file of corpus/<pid>/ (recorded failing cases of earlier, since repaired or deliberately
+    seeded, defects) against the current tree. Returns (count, [(path, cls, detail)], [infra], known hits)."""
+    d = os.path.join(VERIF, "corpus", pid)
+    files = sorted(os.path.join(d, f) for f in os.listdir(d) if f.endswith(".json")) if os.path.isdir(d) else []
+    if not files or not replay_fn or os.environ.get("VERIF_NO_CORPUS"):
+        return 0, [], [], {}
+    bad, infra, hits = [], [], {}
+    with cf.ProcessPoolExecutor(max_workers=jobs) as ex:
+        for (path, vs, err) in ex.map(_corpus_worker, [(modname, replay_fn, bindir, f) for f in files]):
+            if err:
+                infra.append(err)
+            for (cls, detail) in vs:
+                if cls in known_classes:
+                    hits[known_classes[cls]] = hits.get(known_classes[cls], 0) + 1
+                else:
+                    bad.append((path, cls, detail))
+    return len(files), bad, infra, hits
+
+
 def run_check(pid, modname, fn, bindir, n_cases, tier, level, rule, assumptions, components, extra=None,
-              budget_s=None, replay_fn=None, jobs=None):
+              budget_s=None, replay_fn=None, jobs=None, known_class_map=None):
     """Runs n_cases seeded cases in parallel; writes evidence; prints verdict lines; returns exit code."""
     seed = int(os.environ.get("VERIF_SEED", "1"))
     t0 = time.time()
     known = load_known(pid)
+    known_classes = {c: f for c, f in (known_class_map or {}).items() if f in known}
+    ncorpus, corpus_bad, corpus_infra, corpus_hits = run_corpus(pid, modname, replay_fn, bindir, jobs or NCPU, known_classes)
+    if ncorpus:
+        print("corpus %s: %d recorded cases replayed, %d violating" % (pid, ncorpus, len(corpus_bad)), flush=True)
     total = CaseResult()
     sigs = set()
     samples = []
@@ -135,6 +171,14 @@ def run_check(pid, modname, fn, bindir, n_cases, tier, level, rule, assumptions,
     # verdicts
     code = 0
     reported = 0
+    infra = corpus_infra + infra
+    for k, n in corpus_hits.items():
+        known_hit[k] = known_hit.get(k, 0) + n
+    for (path, cls, detail) in corpus_bad[:3]:
+        print("violation class=%s detail=%s" % (cls, detail[:2000]))
+        print("VIOLATION property=%s replay=%s" % (pid, path), flush=True)
+        reported += 1
+        code = 1
     os.makedirs(os.path.join(OUT, "replays", pid), exist_ok=True)
     seen_cls = set()
     for (w, v) in violations:
@@ -169,6 +213,7 @@ def run_check(pid, modname, fn, bindir, n_cases, tier, level, rule, assumptions,
         "seeds": done,
         "components": components,
         "known_findings_reproduced": known_hit,
+        "corpus_cases_replayed": ncorpus,
     }
     for k, v in total.stats.items():
         cov[k] = v
